@@ -27,7 +27,8 @@ Flat(ss) == IF ss = <<>> THEN <<>> ELSE Head(ss) \o Flat(Tail(ss))
 Rep(n, x) == [i \in 1..n |-> x]
 
 \* ============================================================= paths
-Segs == {"n", "m", ".", "..", "", "u"}          \* "u" is a non-ASCII name
+Segs == {"n", "m", ".", "..", "", "u", "o+"}    \* "u" is a non-ASCII name; "o+" is the output folder's own name with a suffix
+                                                \* (../out_old is beside /T/out although "/T/out" is a PREFIX of its text)
 Paths == {[abs |-> a, segs |-> s, slash |-> t] :
             a \in {"rel", "root", "inroot", "sibling"},   \* relative | "/abs/.." | abs path below the root | abs path beside it
             s \in UNION {[1..k -> Segs] : k \in 1..3}, t \in BOOLEAN}
@@ -41,7 +42,7 @@ Norm(stack, segs) ==
               ELSE IF h = ".." THEN (IF stack = <<>> THEN <<>> ELSE SubSeq(stack, 1, Len(stack) - 1))
               ELSE Append(stack, h), Tail(segs))
 StartOf(p) == CASE p.abs = "rel" -> RootStack [] p.abs = "root" -> <<>> [] p.abs = "inroot" -> RootStack
-                [] p.abs = "sibling" -> <<"T", "other">>
+                [] p.abs = "sibling" -> <<"T", "o+">>
 Resolved(p) == Norm(StartOf(p), p.segs)
 IsPrefix(a, b) == Len(a) <= Len(b) /\ SubSeq(b, 1, Len(a)) = a
 Inside(p) == IsPrefix(RootStack, Resolved(p))
@@ -49,7 +50,7 @@ Inside(p) == IsPrefix(RootStack, Resolved(p))
 \* the directories the path names on its way (they have to exist before the file is opened)
 Visited(p) == {Norm(StartOf(p), SubSeq(p.segs, 1, k)) : k \in 0..(Len(p.segs) - 1)}
 \* ... and the target is not one of the directories the path itself walks through (`n/../n`)
-FileLike(p) == /\ Inside(p) /\ Len(Resolved(p)) > Len(RootStack) /\ ~p.slash /\ p.segs[Len(p.segs)] \in {"n", "m", "u"}
+FileLike(p) == /\ Inside(p) /\ Len(Resolved(p)) > Len(RootStack) /\ ~p.slash /\ p.segs[Len(p.segs)] \in {"n", "m", "u", "o+"}
                /\ Resolved(p) \notin Visited(p)
 \* verdict the documents prescribe
 PathVerdict(p) == IF ~Inside(p) THEN "refused"          \* before anything is written, anywhere
